@@ -58,6 +58,9 @@ CHECKS = {
     "C15": dict(cat="exploration", tech="runtime monitoring: presence/ordering/value monitors per tag kind against the reference (set-valued for schedule-dependent presence), gates forcing both completion orders, deadlock oracle for never-ending optional sources",
                 text="For all explored placements, source outcomes and completion orders: wait-optional consumers started only after the source's terminal event and saw the field exactly when the source produced it, soft-optional never delayed a consumer and carried the source's value when present, one-of carried a produced alternative with its discriminator, or-disabled yielded result or disabled message.",
                 note="Trusted: vlib/ref.py tag semantics.", ref="8/C15"),
+    "C18": dict(cat="exploration", tech="runtime monitoring: in-process property-based monitor (recover around every call) with schema-driven boundary-class argument generation, law oracles and a differential check Call vs expression Evaluate/Type",
+                text="For all generated argument lists of every built-in function (only values the declared parameter schemas accept): no panic (one known finding), deterministic results accepted by the declared or derived result type, and the documented laws held; the same holds through the expression library.",
+                note="Argument classes are sampled (boundary values plus random); readFile/getEnvVar only for totality and determinism.", ref="8/C18"),
 }
 
 NOT_APPLICABLE = {}
